@@ -477,8 +477,21 @@ def run(R, P="C09"):
                 if val is None:
                     return None
                 return val if pos_ else (not val)
-            ends = kit.follow_decided(fcfg, truth_of)
-            got = sorted(set(q.src(e_.value) if isinstance(e_, ast.Return) and e_.value is not None else type(e_).__name__ for e_ in ends))
+            ends = kit.follow_decided_env(fcfg, truth_of)
+
+            def shown(e_, env_):
+                # the returned expression with the plain locals bound on this path written out (`target = fn.asynq; return target(*a)`)
+                if not (isinstance(e_, ast.Return) and e_.value is not None):
+                    return type(e_).__name__
+                import copy as _copy
+
+                class Sub(ast.NodeTransformer):
+                    def visit_Name(self, node):
+                        if isinstance(node.ctx, ast.Load) and node.id in env_:
+                            return _copy.deepcopy(env_[node.id])
+                        return node
+                return q.src(ast.fix_missing_locations(Sub().visit(_copy.deepcopy(e_.value))))
+            got = sorted(set(shown(e_, env_) for e_, env_ in ends))
             want = expected(asg)
             if got != [want]:
                 bad.append((asg, got, want))
